@@ -535,6 +535,34 @@ Proof.
   - eapply nth_error_set_nth_same; eassumption.
 Qed.
 
+(* no reachable state lists a connection whose session has ended: every entry of s.connections
+   belongs to a session that has not ended, and an ended session owns none *)
+Theorem no_connection_of_an_ended_session self y :
+  reachable repaired self y ->
+  (forall id c, aget (y_conns y) id = Some c ->
+     exists i bi p, nth_error (y_sess y) i = Some (bi, p) /\ holds p = Some (id, c) /\ ended p = false) /\
+  (forall i bi p, nth_error (y_sess y) i = Some (bi, p) -> ended p = true -> holds p = None).
+Proof.
+  intro Hr. destruct (reachable_inv _ _ Hr) as [_ _ C _ _ _]. split.
+  - intros id c Hc. destruct (C _ _ Hc) as (i & bi & p & Hi & Hh).
+    exists i, bi, p. repeat split; try assumption. destruct p; simpl in *; try discriminate; reflexivity.
+  - intros i bi p _ He. destruct p; simpl in *; try discriminate; reflexivity.
+Qed.
+
+(* the step "session ended" removes the entry at once, from every phase after admission *)
+Theorem ending_removes_in_one_step self y i bi p id c :
+  reachable repaired self y -> nth_error (y_sess y) i = Some (bi, p) -> holds p = Some (id, c) ->
+  let y1 := sys_step repaired y (LHangup i) in
+  aget (y_conns y1) id = None /\ exists q, nth_error (y_sess y1) i = Some (bi, q) /\ ended q = true.
+Proof.
+  intros Hr Hi Hh.
+  destruct (forgotten_when_session_ends _ _ _ _ _ _ _ Hr Hi Hh) as (H1 & _).
+  split; [exact H1|].
+  cbn [sys_step]. rewrite Hi.
+  destruct p; simpl in Hh; try discriminate; cbn [v_remove_late repaired];
+    eexists; (split; [eapply nth_error_set_nth_same; eassumption|reflexivity]).
+Qed.
+
 (* ---------- the pinned code ---------- *)
 
 Definition bi1 : binfo := {| bi_cost := Dy false 1 0; bi_nodecost := []; bi_allowed := None |}.
